@@ -27,7 +27,9 @@ def gen(rng):
         subs.append({"script": [rng.choice(["ok", "err", "ok"]) for _ in range(3)] + ["ok"],
                      "block": rng.random() < 0.35, "cancel_at": rng.choice([None, None, 0, 1, 2, 4])})
     return {"base": rng.choice(["sync", "pool", "pool"]), "layers": layers, "subs": subs, "timeout": rng.choice([10 ** 6, 3]),
-            "poll_faults": rng.random() < 0.2, "name": rng.choice(["default", "mx"]), "shutdown_early": rng.random() < 0.25}
+            "poll_faults": rng.random() < 0.2, "name": rng.choice(["default", "mx"]), "shutdown_early": rng.random() < 0.25,
+            # the user shuts down the innermost (base) executor directly: later hand-overs to it are refused
+            "base_shutdown_at": rng.choice([None, None, None, None, 0, 1])}
 
 
 def execute(p, chooser):
@@ -35,7 +37,29 @@ def execute(p, chooser):
     from more_executors import Executors
     from more_executors.futures import f_return
     pc.reset()
-    obs = {"params": p, "polls": 0, "poll_errors": 0, "invocations": {}, "outs": {}, "accepted": 0}
+    obs = {"params": p, "polls": 0, "poll_errors": 0, "invocations": {}, "outs": {}, "accepted": 0, "cancel_calls": []}
+    from more_executors._impl import common as _common
+    if not getattr(_common._Future.cancel, "_verif_wrapped", False):
+        _orig_cancel = _common._Future.cancel
+
+        _depth = {}
+
+        def _cancel(self):
+            # outermost cancel() call of each thread only (a derived future's cancel() cancels its delegate in turn)
+            me = det.me()
+            k = me.tid if me is not None else None
+            _depth[k] = _depth.get(k, 0) + 1
+            try:
+                r = _orig_cancel(self)
+            finally:
+                _depth[k] -= 1
+            rec = getattr(_common, "_verif_cancel_rec", None)
+            if rec is not None and me is not None and _depth[k] == 0:
+                rec.append((me.name, type(self).__name__, bool(r)))
+            return r
+        _cancel._verif_wrapped = True
+        _common._Future.cancel = _cancel
+    _common._verif_cancel_rec = obs["cancel_calls"]
 
     def main():
         det.emit("case", None, repr(p))
@@ -43,6 +67,8 @@ def execute(p, chooser):
         with det.atomic():
             kw = {"name": p["name"]}
             ex = Executors.sync(**kw) if p["base"] == "sync" else Executors.thread_pool(max_workers=2, **kw)
+            base_ex = ex
+            layer_objs = []
             for k in p["layers"]:
                 if k == "map":
                     ex = ex.with_map(lambda v: v)
@@ -65,8 +91,11 @@ def execute(p, chooser):
                     ex = ex.with_timeout(p["timeout"])
                 else:
                     ex = ex.with_cancel_on_shutdown()
+                layer_objs.append((k, ex))
         top = ex
         futs = {}
+        if p.get("base_shutdown_at") == 0:
+            base_ex.shutdown(False)
 
         def mk(s, spec):
             st = {"k": 0}
@@ -103,6 +132,8 @@ def execute(p, chooser):
         ts = [det.spawn("x", canceller), det.spawn("op", opener)]
         if p["shutdown_early"]:
             ts.append(det.spawn("sh", lambda: (det.sleep(1), top.shutdown(True))))
+        if p.get("base_shutdown_at") == 1:
+            ts.append(det.spawn("bsh", lambda: (det.sleep(1), base_ex.shutdown(False))))
         for t in ts:
             t.join()
         # let everything finish, then shut down
@@ -115,6 +146,9 @@ def execute(p, chooser):
                 st = f._state
                 obs["outs"][s] = "pending" if st in ("PENDING", "RUNNING") else ("cancelled" if f.cancelled() else ("err" if f._exception is not None else "ok"))
             obs["registry"] = dict(pc.REGISTRY)
+            # reality, read off the executors themselves
+            obs["actual_throttle_queue"] = sum(len(o._to_submit) for (k, o) in layer_objs if k == "throttle")
+            obs["actual_retry_queue"] = sum(len(o._jobs) for (k, o) in layer_objs if k == "retry")
             obs["history_min"] = min([v for (k, v) in pc.HISTORY] + [0])
             obs["negatives"] = sorted(set(k for (k, v) in pc.HISTORY if v < 0))
 
@@ -146,6 +180,18 @@ def monitor(r, obs):
     name = p["name"]
     if obs["negatives"]:
         out.append({"what": "gauges went negative: %s" % obs["negatives"], "detail": str(p), "pattern": "metrics:negative:" + obs["negatives"][0][0]})
+    # the queue gauges against the queues themselves - whatever else is still pending
+    for gname, key in (("more_executors_throttle_queue", "actual_throttle_queue"), ("more_executors_retry_queue", "actual_retry_queue")):
+        g = sum(v for k, v in reg.items() if k[0] == gname and k[-1] == name)
+        if key in obs and g != obs[key]:
+            out.append({"what": "gauge %s is %s, the executors' queues hold %s entries" % (gname, g, obs[key]), "detail": str(p),
+                        "pattern": "metrics:queue-gauge:" + gname})
+    # timeouts that succeeded = cancel() calls made by a timeout thread that returned True
+    if "timeout" in p["layers"]:
+        want = sum(1 for (th, cls, r) in obs.get("cancel_calls", []) if th.startswith("TimeoutExecutor-") and r)
+        if val0(reg, "timeout", name) != want:
+            out.append({"what": "timeout_total = %s, %d cancels by a timeout thread succeeded" % (val0(reg, "timeout", name), want),
+                        "detail": str(p), "pattern": "metrics:timeout_total"})
     if any(o == "pending" for o in obs["outs"].values()):
         return out     # something never finished (another property's business): gauges legitimately non-zero
     for k, v in sorted(reg.items()):
@@ -180,6 +226,10 @@ def monitor(r, obs):
         if val("exec_total", TYPE[k], name) != p["layers"].count(k):
             out.append({"what": "exec_total{%s} = %s, %d created" % (k, val("exec_total", TYPE[k], name), p["layers"].count(k)), "detail": str(p), "pattern": "metrics:exec_total"})
     return out
+
+
+def val0(reg, n, *l):
+    return reg.get(("more_executors_" + n,) + l, 0)
 
 
 def nontrivial(r, obs, events):
